@@ -179,7 +179,7 @@ type LuaResult struct {
 	Errmsg string
 	Out    string
 	Ctx    string
-	Alloc  uint64 // Go heap bytes allocated while loading+running the chunk (Stats only)
+	Alloc  uint64 // growth of MemStats.HeapSys while loading+running the chunk (Stats only)
 }
 
 func HexOrDash(b []byte) string {
@@ -219,11 +219,16 @@ func RunLuaCase(lc LuaCase) (res LuaResult) {
 	t := r.MainThread()
 	if lc.Stats {
 		var ms0 goruntime.MemStats
+		goruntime.GC()
 		goruntime.ReadMemStats(&ms0)
 		defer func() {
 			var ms1 goruntime.MemStats
 			goruntime.ReadMemStats(&ms1)
-			res.Alloc = ms1.TotalAlloc - ms0.TotalAlloc
+			// growth of the heap memory obtained from the OS: an (over-)estimate of the
+			// peak live heap during the case that garbage-only loops do not inflate
+			if ms1.HeapSys > ms0.HeapSys {
+				res.Alloc = ms1.HeapSys - ms0.HeapSys
+			}
 		}()
 	}
 	clos, err := t.LoadFromSourceOrCode(lc.Chunk, lc.Src, lc.Mode, rt.TableValue(r.GlobalEnv()), false)
